@@ -185,3 +185,20 @@ M('c14-sync-big-read-drops-buffered-remainder', 'C14', 'R9', S,
 M('c14-sync-backlog-misses-drained-buffer', 'C14', 'R9', S,
   "            else:\n                result.append(self._buffer)\n            self._buffer_len = next_chunk_len\n",
   "            self._buffer_len = next_chunk_len\n")
+
+# ------------------------------------------------------------------ R10 sync read-until: "enough is buffered, stop refilling" keeps a delimiter tail (shared with C13 R6)
+# after a failed search of the buffer a bounded read may hand out bytes only up to buffer end - (len(delimiter) - 1): the last
+# len(delimiter) - 1 bytes may be the head of a delimiter that the next chunk completes
+_EARLY = "            if size < (\n                have_bytes + self._buffer_len - self._buffer_pos - delimiter_len_1\n            ):\n"
+M('c14-sync-early-exit-ignores-delimiter-tail', 'C14', 'R10', S,          # seeded s3-c13-2
+  _EARLY, "            if size < have_bytes + self._buffer_len - self._buffer_pos:\n", also=['C13'])
+M('c14-sync-early-exit-tail-sign-flipped', 'C14', 'R10', S,
+  _EARLY, "            if size < (\n                have_bytes + self._buffer_len - self._buffer_pos + delimiter_len_1\n            ):\n", also=['C13'])
+M('c14-sync-early-exit-tail-off-by-one', 'C14', 'R10', S,          # (`size < ... - delimiter_len_1 + 1` is still exact; `<=` hands out one byte too many)
+  _EARLY, "            if size <= (\n                have_bytes + self._buffer_len - self._buffer_pos - delimiter_len_1 + 1\n            ):\n", also=['C13'])
+M('c14-sync-early-exit-tail-on-wrong-term', 'C14', 'R10', S,          # the margin ends up added to the buffered amount
+  _EARLY, "            if size < (\n                have_bytes + self._buffer_len - (self._buffer_pos - delimiter_len_1)\n            ):\n", also=['C13'])
+M('c14-sync-early-exit-tail-on-wrong-side', 'C14', 'R10', S,
+  _EARLY, "            if size - delimiter_len_1 < have_bytes + self._buffer_len - self._buffer_pos:\n", also=['C13'])
+M('c14-sync-early-exit-tail-of-consumed-only', 'C14', 'R10', S,          # margin only when the delimiter is going to be consumed
+  _EARLY, "            if size < (\n                have_bytes + self._buffer_len - self._buffer_pos - (delimiter_len_1 if consume_delimiter else 0)\n            ):\n", also=['C13'])
